@@ -5,6 +5,7 @@ from vmon.checks.common import obs, fail, both_views, random_prefix, apply_prefi
 
 EXTREMES = "seq"   # worker re-labels every sixth case to the ends of the legal ranges (gen.extremify)
 RESTATE = "seq"    # worker adds a signature restating the one in force to every fifth case (gen.restate_signatures)
+CANONICAL_ABS = True   # cut-off pairs notes over the canonically sorted list (oracle.abs_order)
 PROP = "C18"
 MONITORS = ["c18"]
 INSITU = {"k": "pad or cutoff or scale or tokenisation or bar or composition or channel"}
@@ -40,6 +41,9 @@ def make_case(rng, i, tier):
     notes = gen.wf_notes(rng, rng.randint(0, 7), chans=chans, pitches=(60, 61, 62), tmax=80, lmin=1, lmax=50)
     extra = gen.rand_extras(rng, rng.randint(0, 3), 100, kinds=("cc", "pc", "ts", "ks"), chans=chans)
     spec = {"notes": notes, "extra": extra, "start": start}
+    if op == "cutoff" and (i // 5) % 4 == 1:
+        # cut-off pairs notes over the canonically sorted list: the insertion order of the absolute messages must not matter
+        spec["start"], spec["shuffle_seed"] = "abs_shuffled", i
     if rng.random() < 0.35:
         spec["pad"] = rng.randrange(0, 200)
     d = gen.end_of(spec)
